@@ -13,8 +13,9 @@ from ..loader import AnalysisError, Program
 from ..model import Model
 from ..partial import escapes
 from ..report import Run
-from ..values import Const, ExcV, Inst, ListV, PropsV, SchemaV, Sym, Term, TupleV, V, is_ell
-from ..visits import Config, configs_for, run_visit, substitutor_ctx
+from ..engine import Interp
+from ..values import ELL, Const, DictV, ExcV, Inst, ListV, PropsV, SchemaV, Sym, Term, TupleV, V, is_ell
+from ..visits import (Config, _c_from_native, configs_for, key_tables, make_visitor, run_visit, substitutor_ctx)
 from .c02 import TYPE
 
 OK_EXC = "SubstitutionError"
@@ -32,6 +33,215 @@ def validated(p: Path) -> Optional[bool]:
     return None
 
 
+def _plain(n: str) -> Sym:
+    return Sym(n, "int", ("plain", n))
+
+
+def _subst_shape(prog: Program, model: Model, hook: str, cfg: Config, mkvalue: Any) -> List[Path]:
+    """Substitutor.<hook> on a value of concrete shape; the pre-validation of the schema itself is executed, the
+    verdict of member schemas (symbols) on their positions is left open."""
+    st = model.by_hook[hook]
+    it = Interp(prog, model, unroll=1, max_depth=8)
+    it.accept_summary = lambda recv, v: not isinstance(recv, SchemaV)    # type: ignore[attr-defined]
+    it.contracts["d42.utils._from_native.from_native"] = _c_from_native
+
+    def run(i: Interp) -> V:
+        v = make_visitor(i, "Substitutor")
+        sc = i.make_schema(st, cfg.setprops, cfg.build())
+        return i.call_function(v.cls.lookup(hook), [sc], {"value": mkvalue()}, self_val=v)
+    return it.run_paths(run, max_paths=2000)
+
+
+def _declarable(prog: Program, model: Model, hook: str, result: SchemaV) -> Tuple[Optional[bool], str]:
+    """Would the declaration DSL accept the container the substitutor returned?  The stored element list / key table
+    is handed back to <Schema>.__call__ of a fresh schema (optional keys re-wrapped); True: every path returns,
+    False: every path raises DeclarationError."""
+    st = model.by_hook[hook]
+    vals = result.props.vals if isinstance(result.props, PropsV) else {}
+    if hook == "visit_list":
+        arg = vals.get("elements")
+        if not (isinstance(arg, ListV) and arg.concrete()):
+            return None, "no concrete element list"
+        mk = lambda i: ListV(list(arg.items))     # noqa: E731
+    else:
+        tbl = vals.get("keys")
+        if not (isinstance(tbl, DictV) and all(isinstance(v, TupleV) and len(v.items) == 2 for _, v in tbl.items)):
+            return None, "no concrete key table"
+        opt = prog.cls("declaration.types._optional.optional")
+
+        def mk(i: Interp) -> V:
+            items = []
+            for k, v in tbl.items:
+                flag = v.items[1]
+                if isinstance(flag, Const) and flag.value is True:
+                    k = i._construct(opt, [k], {}, None)
+                items.append((k, v.items[0]))
+            return DictV(items)
+    it = Interp(prog, model, unroll=1, max_depth=8)
+
+    def run(i: Interp) -> V:
+        fresh = i.make_schema(st, (), {})
+        return i.call_function(st.cls.lookup("__call__"), [mk(i)], {}, self_val=fresh)
+    ps = it.run_paths(run, max_paths=400)
+    outs = {("raise:" + p.value.cls_name if p.outcome == "raise" and isinstance(p.value, ExcV) else p.outcome) for p in ps}
+    if outs == {"return"}:
+        return True, ""
+    if outs and all(o == "raise:DeclarationError" for o in outs):
+        msg = ""
+        for p in ps:
+            for e in reversed(p.events):
+                if e.kind == "raise":
+                    break
+        return False, msg
+    return None, f"declaration outcomes {sorted(outs)}"
+
+
+def _show(v: V) -> str:
+    if is_ell(v):
+        return "..."
+    if isinstance(v, ListV):
+        return "[" + ", ".join(_show(x) for x in v.items) + "]"
+    if isinstance(v, DictV):
+        return "{" + ", ".join(f"{_show(k)}: {_show(x)}" for k, x in v.items) + "}"
+    if isinstance(v, Sym) and v.origin and v.origin[0] == "plain":
+        return "1"
+    if isinstance(v, Sym) and v.origin and v.origin[0] == "dictkey":
+        return repr(v.name)
+    return v.key()[:30]
+
+
+def _result_declarable(run: Run, prog: Program, model: Model, tier: str) -> None:
+    """RESULT-DECLARABLE: a `...` in the substituted value is a placeholder; wherever the substitutor copies it into
+    the result, the result must still be a container the declaration DSL would have accepted (a `...` only first or
+    last in an element list, only as `...: ...` in a key table).  Anything else is a schema every visitor
+    dereferences a marker on: it cannot be validated against, generated from or printed."""
+    sub = model.visitors["Substitutor"]
+    n = 0
+    lshapes = ["p", "p.", ".p", ".p.", "p.p", "pp.p", "p..p", ".p.p"] + ([".pp.", "p.pp", "..p"] if tier != "quick" else [])
+    for hook in ("visit_list", "visit_dict"):
+        f = sub.lookup(hook)
+        if f is None:
+            continue
+        st = model.by_hook[hook]
+        for cfg in configs_for(st, tier):
+            if hook == "visit_list":
+                if any(x in cfg.setprops for x in ("len", "min_len", "max_len")):
+                    continue      # lengths do not decide where a marker may stand
+                values = [(sh, (lambda sh=sh: ListV([ELL if c == "." else _plain(f"p{i}") for i, c in enumerate(sh)]))) for sh in lshapes]
+            else:
+                def k(name: str) -> Sym:
+                    return Sym(name, "key", ("dictkey", name))
+                forms = [[("r1", "p")], [("r1", ".")], [(".", ".")], [(".", "p")], [("r1", "p"), (".", ".")],
+                         [("r1", "."), ("o1", "p")], [("x", ".")], [("x", "p"), (".", ".")], [("x", "."), (".", ".")]]
+                values = []
+                for fm in forms:
+                    def mkv(fm: Any = fm) -> DictV:
+                        return DictV([(ELL if a == "." else k(a), ELL if b == "." else _plain("p_" + a)) for a, b in fm])
+                    values.append(("{" + ", ".join(("..." if a == "." else repr(a)) + ": " + ("..." if b == "." else "1") for a, b in fm) + "}", mkv))
+            bad: List[str] = []
+            und: List[str] = []
+            ok = 0
+            for label, mkv in values:
+                for p in _subst_shape(prog, model, hook, cfg, mkv):
+                    if p.outcome != "return" or not isinstance(p.value, SchemaV):
+                        continue
+                    verdict, why = _declarable(prog, model, hook, p.value)
+                    vals = p.value.props.vals if isinstance(p.value.props, PropsV) else {}
+                    shown = _show(vals.get("elements" if hook == "visit_list" else "keys"))     # type: ignore[arg-type]
+                    if verdict is False:
+                        bad.append(f"% {label} returns {st.cls.name} storing {shown}, which the declaration refuses")
+                    elif verdict is None:
+                        und.append(f"% {label}: {why}")
+                    else:
+                        ok += 1
+            n += 1
+            c = f"Substitutor.{hook} {cfg.label}: stored container is declarable"
+            if bad:
+                run.violated("RESULT-DECLARABLE", c, f.loc, "; ".join(sorted(set(bad)))[:500],
+                             witness="validate(schema.list % [1, ..., 2], [1, 5, 2]) raises AttributeError; "
+                                     "fake(schema.dict % {'a': ...}) raises AttributeError")
+            elif und and not ok:
+                run.undecided("RESULT-DECLARABLE", c, f.loc, "; ".join(sorted(set(und)))[:300])
+            else:
+                run.holds("RESULT-DECLARABLE", c, f.loc, f"{ok} returned containers re-declared", nontrivial=ok > 0)
+    run.analysed["result_declarable_configs"] = n
+
+
+def _reflexive(t: Any, kind: Optional[str]) -> bool:
+    """Is this comparison one of a value with itself (possibly through K(value) for the validated kind K, which yields
+    an equal value)?  Its failing branch is the NaN corner the design leaves undecided, not a disagreement."""
+    def norm(x: Any) -> str:
+        while isinstance(x, Term) and x.op == "call" and len(x.args) == 2 and isinstance(x.args[0], str) \
+                and kind is not None and x.args[0] == f"builtins.{kind}" and isinstance(x.args[1], V):
+            x = x.args[1]
+        if isinstance(x, Term):
+            return f"{x.op}(" + ", ".join(norm(a) if isinstance(a, V) else str(a) for a in x.args) + ")"
+        return x.key() if isinstance(x, V) else str(x)
+    while isinstance(t, Term) and ((t.op == "call" and len(t.args) == 2 and t.args[0] == "builtins.bool") or t.op == "not"):
+        t = t.args[-1]
+    if not isinstance(t, Term):
+        return False
+    if t.op in ("eq", "ne") and len(t.args) == 2:
+        return norm(t.args[0]) == norm(t.args[1])
+    if t.op == "call" and t.args and t.args[0] == "math.isclose":
+        vs = [a for a in t.args[1:] if isinstance(a, V) and not (isinstance(a, Term) and a.op == "kw")]
+        return len(vs) == 2 and norm(vs[0]) == norm(vs[1])
+    return False
+
+
+def _repin(run: Run, prog: Program, model: Model, tier: str) -> None:
+    """RE-PIN (idempotence, necessary condition): substituting v again validates v against what the first substitution
+    stored for it.  For every scalar type and prop-set the stored payload W is taken from the substitutor's return
+    paths and the validator the substitutor runs is evaluated on (value = v, props.value = W): a path that reports a
+    value mismatch must be one that compares v with itself."""
+    from .c02 import TYPE
+    from .c04 import SCALARS, result_props
+    n = 0
+    for hook in SCALARS:
+        st = model.by_hook[hook]
+        f = model.visitors["Substitutor"].lookup(hook)
+        kind = TYPE.get(hook)
+        for cfg in configs_for(st, tier):
+            if "value" in cfg.setprops:
+                continue
+            stored: Dict[str, V] = {}
+            val = Sym("value", kind, ("param", "value"))       # one symbol for both runs: the same v is substituted twice
+            for p in run_visit(prog, model, "Substitutor", hook, cfg, (lambda i, val=val: {"value": val}), unroll=1):
+                if p.outcome == "return":
+                    pr = result_props(p)
+                    if pr is not None and "value" in pr.vals:
+                        stored[pr.vals["value"].key()] = pr.vals["value"]
+            probs: List[str] = []
+            for wk, w in sorted(stored.items()):
+                it = Interp(prog, model, unroll=1, max_depth=6)
+
+                def run1(i: Interp, w: V = w) -> V:
+                    v = make_visitor(i, "SubstitutorValidator")
+                    ov = cfg.build()
+                    ov["value"] = w
+                    sc = i.make_schema(st, tuple(cfg.setprops) + ("value",), ov)
+                    return i.call_function(v.cls.lookup(hook), [sc], {"value": val,
+                                                                     "path": Sym("path", "PathHolder", ("param", "path"))}, self_val=v)
+                for p in it.run_paths(run1):
+                    for e in p.events:
+                        if e.kind == "construct" and e.data.get("cls") is not None and e.data["cls"].name == "ValueValidationError":
+                            facts = p.facts[:e.nfacts]
+                            last = facts[-1] if facts else None
+                            if last is not None and _reflexive(last[1], kind):
+                                continue
+                            probs.append(f"stored payload {wk[:40]}: the validator reports a value mismatch for the same value when "
+                                         f"{('' if last and last[2] else 'not ') + (last[0][:70] if last else '?')}")
+            n += 1
+            c = f"Substitutor.{hook} {cfg.label}: the pinned value validates against itself"
+            if probs:
+                run.violated("RE-PIN", c, f.loc if f else "", "; ".join(sorted(set(probs)))[:400],
+                             witness="r = substitute(S, v); substitute(r, v) raises SubstitutionError (for v = True and S = schema.int, say)")
+            elif stored:
+                run.holds("RE-PIN", c, f.loc if f else "", f"{len(stored)} stored payload form(s); mismatch paths compare the value with itself",
+                          nontrivial=True)
+    run.floor("RE-PIN", 20)
+
+
 def check(run: Run, prog: Program, model: Model, tier: str) -> None:
     run.explanation = (
         "Every path of every Substitutor.visit_* (and of _substitute_elements / _from_native inlined into them) is "
@@ -43,6 +253,7 @@ def check(run: Run, prog: Program, model: Model, tier: str) -> None:
         "any-schema is never returned without alternatives; validation with a raise on errors dominates every normal "
         "return. substitute(substitute(S, v), v) == substitute(S, v) is not decided."
         " The validator the substitutor runs rejects exactly the relation each length prop means (guarded by `is Nil`), and the conversion path is free of equality-keyed memoisation.")
+    run.explanation += " RESULT-DECLARABLE: Substitutor.visit_list / visit_dict are run on values of concrete shape with `...` placeholders (pre-validation of the schema itself executed, member verdicts left open) and every returned element list / key table is handed back to the declaration's __call__: it must be accepted. RE-PIN: the stored payload and the same value symbol are given to the validator the substitutor runs; a value-mismatch path must compare the value with itself. NATIVE-CONTRACT: C14's ARM/FINAL obligations re-derived."
     run.rule_text = ("obligations per (visit method, prop-set/shape); non-trivial = paths with partial operations, handlers or markers")
     run.trusted += ["visitor contracts of DESIGN appendix B", "partial-operation table"]
     run.assumptions += ["NotImplementedError from Substitutor.visit for hook-less foreign schema classes is outside visit_* and exempt"]
@@ -134,7 +345,9 @@ def check(run: Run, prog: Program, model: Model, tier: str) -> None:
     # the free-form positions of a substituted value are converted by from_native: if that conversion is memoised by
     # equality, equal values of different kinds (True / 1.0) share a slot and the result of substitute() - hence a second
     # substitution of the same value - depends on what was converted before (idempotence clause, necessary condition)
-    from .c14 import _memo
+    from .c14 import _memo, native_contract
+    native_contract(run, prog, model, tier, "substituting the same value into the result again is then refused (idempotence), "
+                    "or the result accepts nothing the value conforms to")
     sub = model.visitors["Substitutor"]
     conv = sub.lookup("_from_native")
     _memo(run, prog, model, prog.func("d42.utils._from_native.from_native"), rule="CONVERT-PURE",
@@ -174,15 +387,36 @@ def check(run: Run, prog: Program, model: Model, tier: str) -> None:
                 run.undecided("PRE-VALIDATION", c, fsv.loc, "rejection predicate not a comparison of len(value) with the prop")
             else:
                 run.holds("PRE-VALIDATION", c, fsv.loc, f"rejects exactly ({xk} ? {prop}) in {sorted(want)}", nontrivial=True)
+    _result_declarable(run, prog, model, tier)
+    _repin(run, prog, model, tier)
     run.analysed["substitutor_paths"] = npaths
     run.floor("ONLY-SUBSTITUTIONERROR", 70)
     run.floor("VALIDATE-FIRST", 70)
     run.floor("ELL-TYPESTATE", 30)
     run.floor("ANY-NONEMPTY", 3)
+    run.floor("RESULT-DECLARABLE", 10)
 
 
 SU = "d42/substitution/_substitutor.py"
 MUTANTS = [
+    {"name": "int substitution stores int(value) and the validator tells bools from ints (seeded C12-I)", "rule": "RE-PIN",
+     "edits": [(SU, "    def visit_int(self, schema: IntSchema, *, value: Any = Nil, **kwargs: Any) -> IntSchema:\n        result = schema.__accept__(self._validator, value=value)\n        if result.has_errors():\n            raise make_substitution_error(result, self._formatter)\n        return schema.__class__(schema.props.update(value=value))",
+                "    def visit_int(self, schema: IntSchema, *, value: Any = Nil, **kwargs: Any) -> IntSchema:\n        result = schema.__accept__(self._validator, value=value)\n        if result.has_errors():\n            raise make_substitution_error(result, self._formatter)\n        return schema.__class__(schema.props.update(value=int(value)))"),
+               ("d42/validation/_validator.py", "                        expected_val: Any) -> Optional[ValidationError]:\n", "                        expected_val: Any) -> Optional[ValidationError]:\n        if isinstance(value, bool) != isinstance(expected_val, bool):\n            return ValueValidationError(path, value, expected_val)\n")]},
+    {"name": "neutral: int substitution stores int(value) (an equal int)", "expect": "SILENT",
+     "edits": [(SU, "    def visit_int(self, schema: IntSchema, *, value: Any = Nil, **kwargs: Any) -> IntSchema:\n        result = schema.__accept__(self._validator, value=value)\n        if result.has_errors():\n            raise make_substitution_error(result, self._formatter)\n        return schema.__class__(schema.props.update(value=value))",
+                "    def visit_int(self, schema: IntSchema, *, value: Any = Nil, **kwargs: Any) -> IntSchema:\n        result = schema.__accept__(self._validator, value=value)\n        if result.has_errors():\n            raise make_substitution_error(result, self._formatter)\n        return schema.__class__(schema.props.update(value=int(value)))")]},
+    {"name": "from_native converts tuples like lists (seeded C12-J)", "rule": "NATIVE-CONTRACT",
+     "edits": [("d42/utils/_from_native.py", "isinstance(value, list)", "isinstance(value, (list, tuple))")]},
+    {"name": "middle `...` of a list value copied into the result (fix ef0ffee reverted, list half)", "rule": "RESULT-DECLARABLE",
+     "edits": [(SU, "                if is_ellipsis(val) and (index != 0) and (index != len(value) - 1):\n                    raise SubstitutionError(\"`...` must be first or last element\")\n",
+                "                if is_ellipsis(val) and (index != 0) and (index != len(value) - 1):\n                    pass\n")]},
+    {"name": "bare `...` stored as the schema of a free-form dict key (fix ef0ffee reverted, dict half)", "rule": "RESULT-DECLARABLE",
+     "edits": [(SU, "                if is_ellipsis(key) != is_ellipsis(val):\n                    raise SubstitutionError(\"Can't substitute ...\")\n", "")]},
+    {"name": "only the untyped list refuses a middle `...`", "rule": "RESULT-DECLARABLE",
+     "edits": [(SU, "        if schema.props.elements is Nil:\n            for index, val in enumerate(value):", "        if schema.props.elements is Nil and schema.props.type is Nil:\n            for index, val in enumerate(value):")]},
+    {"name": "neutral: middle-marker test written with a chained comparison", "expect": "SILENT",
+     "edits": [(SU, "                if is_ellipsis(val) and (index != 0) and (index != len(value) - 1):", "                if is_ellipsis(val) and 0 < index < len(value) - 1:")]},
     {"name": "substitution validator reads the length props through `or`", "rule": "PRE-VALIDATION",
      "edits": [("d42/substitution/_validator.py", "        if schema.props.len is not Nil:\n            if len(value) != schema.props.len:\n                return result.add_error(LengthValidationError(path, value, schema.props.len))\n",
                 "        if schema.props.len:\n            if len(value) != schema.props.len:\n                return result.add_error(LengthValidationError(path, value, schema.props.len))\n")]},
